@@ -7,6 +7,7 @@ CELLS = [
     Recipe(3, allow_chars="abcd", require_sets=["ab"]),
     Recipe(4, allow_chars="aabcdd", require_sets=["a", "cd"]),            # duplicates in the input
     Recipe(2, allow_chars="abcdefg", require_sets=["abc", "cde"]),        # overlapping required sets, a = 7
+    Recipe(3, allow_chars="abcdefg", require_sets=["abc", "ab"]),         # nested required sets: the smaller one binds
     Recipe(3, allow_chars="éa€", require_sets=["é"]),                     # multi-byte characters, a = 3
     Recipe(2, allow=4, require_sets=["357"]),                              # class + custom overlap, a = 10
     Recipe(3, allow_chars="abcde", exclude_chars="e", require_sets=["ae"]),  # exclusion shrinks a required set
@@ -15,6 +16,7 @@ CELLS = [
     Recipe(6, allow_chars="ab", require_sets=["a", "b"]),
     Recipe(3, allow_chars="abcdefghijklmnop"),                             # a = 16 (mask path), 4096 strings
     Recipe(2, allow=2 | 4, require=4),                                     # a = 36
+    Recipe(3, allow_chars="abcdefgh", require_sets=["a", "abcd", "ab"]),  # a chain of nested required sets
 ]
 
 
@@ -90,7 +92,7 @@ def run_cell(ctx, r, first=None):
 
 def oracle(ctx, deep):
     ctx.searched = "complete product cells of index vectors on the real Generate for %d small recipes (first attempt, and after 1-2 forced invalid candidates)" % len(CELLS)
-    cells = CELLS if (deep or ctx.tier == "thorough") else CELLS[:7]
+    cells = CELLS if (deep or ctx.tier == "thorough") else CELLS[:8]
     for r in cells:
         if len(r.alphabet()) ** r.length > 5000:
             continue
